@@ -154,3 +154,23 @@ def c11_self_named_column(case, result):
     return (result.get('viol') or '').startswith("ungroup raised TypeError") and "multiple values for argument 'self'" in (result.get('viol') or '') and \
         isinstance(obs, list) and len(obs) == 3 and obs[2] == ['ERR', 'TypeError']
 
+
+def c16_subclass_constructor_rerun(case, result):
+    # a mapping whose class is a subclass with its OWN __init__ signature (PT: x = 0, y = 0, **kw; KO: *, name = 'n', **kw), an operator
+    # that rebuilds its result through type(self)(...) (&, d[[...]], |, relabel), and a deviation that is exactly the re-run constructor:
+    # keyword rebuild (&, relabel): constructor parameters first, given or re-injected defaults, then the other expected items;
+    # positional rebuild (d[[...]], |): PT -> {x: <the whole expected mapping>, y: default}, KO -> TypeError from the constructor
+    if case.get('kind') != 'dict' or case.get('cls') not in ('PT', 'KO') or case.get('op') not in ('and', 'getlist', 'or', 'relabel') or not result.get('viol'):
+        return False
+    exp = result.get('exp')
+    if exp is None:
+        return False
+    params = {'PT': [('x', -1000), ('y', -1001)], 'KO': [('name', -1002)]}[case['cls']]
+    got = result.get('obs', [None])[0]
+    if case['op'] in ('and', 'relabel'):
+        e = dict((k, v) for k, v in exp)
+        want = [[p, e.get(p, dflt)] for p, dflt in params] + [[k, v] for k, v in exp if k not in dict(params)]
+        return got == [case['cls'], want]
+    if case['cls'] == 'KO':
+        return result.get('status') == 'TypeError'
+    return got == ['PT', [['x', -2000], ['y', -1001]]]
